@@ -39,7 +39,7 @@ type ctx struct {
 }
 
 func main() {
-	mode := flag.String("mode", "sqlite", "sqlite|mysql|mysql-my57|mysql-my80|mysql-maria|mysql-history|postgres|postgres-ns|postgres-history|cli")
+	mode := flag.String("mode", "sqlite", "sqlite|mysql|mysql-my57|mysql-my80|mysql-maria|mysql-history|postgres|postgres-ns|postgres-history|cli|realm")
 	tier := flag.String("tier", "quick", "quick|thorough")
 	outDir := flag.String("out", "", "output directory")
 	flag.Parse()
@@ -47,7 +47,17 @@ func main() {
 		fmt.Fprintln(os.Stderr, "missing -out")
 		os.Exit(2)
 	}
-	c := &ctx{w: out.New(*outDir), p: newProfile(*mode), r: rng.FromEnv(0xC02)}
+	pm := *mode
+	if pm == "realm" {
+		pm = "sqlite"
+	}
+	c := &ctx{w: out.New(*outDir), p: newProfile(pm), r: rng.FromEnv(0xC02)}
+	if *mode == "realm" {
+		// round 5: RealmDiff / schema attributes of all dialects in one stage (realm.go)
+		c.realm(*tier == "thorough")
+		c.w.Close()
+		return
+	}
 	if *mode == "postgres-ns" {
 		// the connection-backed PostgreSQL differ with a schema scope (conn.schema = "public")
 		c.differ, c.tie = scopedPGDiffer("public"), true
